@@ -340,7 +340,8 @@ fn run(c: &mut Case) {
         let known_open_before = shadow.iter().any(|k| *k);
         let r = do_call(&mut w, call);
         c.eval();
-        let dest = w.get_ref().data.clone();
+        // the destination is looked at through get_mut() after every third call: an accessor, like get_ref()
+        let dest = if i % 3 == 1 { w.get_mut().data.clone() } else { w.get_ref().data.clone() };
         // (4) append-only
         if dest.len() < prev_len || dest[..prev_len] != prev_snapshot[..] {
             c.violation("C10/retracted", "destination content is not an extension of what it held before", wit(&calls, i, &dest, "retracted"));
